@@ -111,4 +111,47 @@ def installationsFrom (o : Origin) : Option (List Hit) → List Op → List (Lis
 
 def installations (o : Origin) (ops : List Op) : List (List Hit) := installationsFrom o none ops
 
+/-! ### one tracepoint, SEVERAL actions (snapshot, log, metric, span)
+
+  `build_trigger` gives a tracepoint up to four `LocationAction`s; they sit in ONE `Trigger`, so being installed is one
+  fact for all of them, but `LocationAction.__init__` gives EACH its own `TracepointExecutionStats`, and
+  `TriggerHandler` runs check → process → record for each action in turn with that action's object. -/
+
+def nones (cs : List Cfg) : List (Option Int) := cs.map (fun _ => none)
+
+/-- state: `none` = the tracepoint is not installed, `some sts` = installed, one statistics object per action
+    (in the order of `cs`).  Result: new state and, per action, the time stamp of the collection it made -/
+def stepOpN (cs : List Cfg) (o : Origin) (s : Option (List Stats)) : Op → Option (List Stats) × List (Option Int)
+  | .hit h =>
+    match s with
+    | none => (none, nones cs)
+    | some sts =>
+      let rs := List.zipWith (fun c st => stepHit c st h) cs sts
+      (some (rs.map (·.1)), rs.map (fun r => if r.2 then some h.ts else none))
+  | .update present =>
+    match o with
+    | .service => (if present then some (cs.map (fun _ => Stats.init)) else none, nones cs)
+    | .code => (s, nones cs)
+  | .noChange => (s, nones cs)
+  | .otherCustom => (s, nones cs)
+  | .register =>
+    match o, s with
+    | .code, none => (some (cs.map (fun _ => Stats.init)), nones cs)
+    | _, _ => (s, nones cs)
+  | .unregister =>
+    match o with
+    | .code => (none, nones cs)
+    | .service => (s, nones cs)
+
+/-- one row per operation, one column per action -/
+def runOpsNFrom (cs : List Cfg) (o : Origin) : Option (List Stats) → List Op → List (List (Option Int))
+  | _, [] => []
+  | s, op :: ops => (stepOpN cs o s op).2 :: runOpsNFrom cs o (stepOpN cs o s op).1 ops
+
+def runOpsN (cs : List Cfg) (o : Origin) (ops : List Op) : List (List (Option Int)) := runOpsNFrom cs o none ops
+
+/-- the collections of action `k`, oldest first -/
+def column (k : Nat) (rows : List (List (Option Int))) : List Int :=
+  rows.flatMap (fun row => outOf ((row[k]?).getD none))
+
 end Limiter
